@@ -141,7 +141,7 @@ def run(pid, tier, seed):
                 "replayed with the shape after every insertion compared with the I-level prediction; a differing shape is "
                 "validated at the R-level instead. distinct_nontrivial = number of distinct final tree shapes+colourings "
                 "reached. binding B: sorted/reversed/zig-zag/random/duplicate-heavy sequences up to %d keys with integer, "
-                "address and lexicographic comparators, shapes validated by RBTreeTrace (R-level)." % (L, K, maxn),
+                "address and lexicographic comparators and a comparator answering with 64-bit differences of keys 2^31 apart, shapes validated by RBTreeTrace (R-level)." % (L, K, maxn),
         "samples": samples, "exhaustive": True,
         "exhaustive_scope": "all sequences of length %d over %d keys (replayed); all insertion orders over %d keys on the model" % (L, K, 7 if q else 9),
         "jobs": per_job, "shape_differences_from_I_level": shape_diffs,
@@ -166,7 +166,7 @@ def replay(pid, path):
         kind, keys = d["kind"], d["keys"]
     import subprocess
     beh = json.dumps([{"k": k, "dup": False, "found": k, "t": {"root": 0, "key": [], "left": [], "right": [], "parent": [], "red": [], "count": -1}} for k in keys])
-    rkind = kind if kind in ("owning", "chain", "address", "lexicographic") else "owning"
+    rkind = kind if kind in ("owning", "chain", "address", "lexicographic", "wide") else "owning"
     r = subprocess.run([exe, "replay", rkind], input=beh + "\n", stdout=subprocess.PIPE, text=True)
     tl = [ln[2:] for ln in r.stdout.splitlines(True) if ln.startswith("T ")]
     fails = [ln for ln in r.stdout.splitlines() if ln.startswith("FAIL ")]
